@@ -85,3 +85,17 @@ def para_unformatted_append(s1: str, s2: str) -> bool:
             exp += c
             blank = False
     return done(_ok(p, s1 + exp))
+
+
+NBSP = chr(160)
+
+
+def para_nbsp(s: str) -> bool:
+    """
+    pre: len(s) <= 3 and all(c in ("a", " ", NBSP) for c in s)
+    post: _
+    """
+    # non-ASCII white space (NO-BREAK SPACE) is ordinary text for ODF: it must come back unchanged
+    p = Paragraph(s)
+    node = p._Element__element
+    return done(p.inner_text == s and S.plain_text(node) == s)
